@@ -57,6 +57,15 @@ CHECKS = {
             'Trusted: vlib/refmodel.py; harness tables. Inner output names are unique by construction (duplicate names are a '
             'recorded known finding).',
             'DESIGN.md section 4, C08'),
+    'C09': ('Hypothesis: placeholder substitution metamorphic test (parameterised vs literal statement, plus reference model); folded-vs-per-row differential; model-based operation histories on one connection vs fresh-connection oracle with source-data snapshot',
+            'Three generated searches: (1) statements in which a random subset of constants becomes %s / %(name)s '
+            'placeholders must return what the literal statement returns, binding in textual order; (2) constant '
+            'expressions must evaluate identically folded at compile time and per row from columns holding the same '
+            'constants; (3) histories of execute(text) / execute(parsed, other parameters) / executemany / compile / fetch '
+            'over harness tables and over a Beancount ledger (balance, OPEN/CLOSE/CLEAR, BALANCES, JOURNAL) must give, at '
+            'every step, the result of the same statement on a fresh connection and leave the data unchanged.',
+            'Trusted: fresh-connection execution as the history oracle (memoised per process); vlib/refmodel.py. Single thread.',
+            'DESIGN.md section 4, C09'),
     'C10': ('Hypothesis-generated cursor call histories vs list-and-position model (model-based/stateful PBT)',
             'Bounded random exploration of cursor call histories (result sizes 0..12, <=30 operations, several '
             'cursors per connection) against an executable model of the DB-API protocol; every description entry '
